@@ -104,7 +104,7 @@ func NewGen(r *rand.Rand, dirs bool) *Gen {
 // Gen is the exported face of the generator.
 type Gen struct{ g *gen }
 
-func (g *Gen) SelSet(root string, depth int) *SelSet { return g.g.selset(root, depth) }
+func (g *Gen) SelSet(root string, depth int) *SelSet { return g.g.rootset(root, depth) }
 func (g *Gen) Render(ss *SelSet) string              { return g.g.Render(ss) }
 
 // SetOp makes Render write another operation keyword ("mutation").
@@ -147,6 +147,40 @@ func (g *gen) dirsFor() []Dir {
 		ds = append(ds, mk("include"), mk("skip"))
 	}
 	return ds
+}
+
+// rootset is selset for the root of a query; one query in ten (zoo schema only) is the twin-spread shape: one named
+// fragment spread at two places, at each of which a later fragment selects the same object field under the same
+// response key with a sub-selection of its own - the merged field must get, at each place, its own partner's fields.
+func (g *gen) rootset(t string, depth int) *SelSet {
+	if t != "Query" || g.r.Intn(10) != 0 {
+		return g.selset(t, depth)
+	}
+	if _, ok := schema["A"]["b"]; !ok || schema["B"]["tag"].typ != "String" {
+		return g.selset(t, depth)
+	}
+	leaf := func(name, alias string) *Sel { return &Sel{Name: name, Alias: alias, Dirs: []Dir{}, Sub: emptySet()} }
+	scal := [][2]string{{"id", "id"}, {"y", "y"}, {"tag", "tag"}, {"id", "zid"}, {"y", "zy"}, {"tag", "ztag"}, {"id", "i2"}}
+	g.r.Shuffle(len(scal), func(i, j int) { scal[i], scal[j] = scal[j], scal[i] })
+	nShared := []int{3, 3, 5}[g.r.Intn(3)] // list lengths that leave spare capacity in the parser's slices
+	shared := &SelSet{Frags: []*Frag{}}
+	for _, x := range scal[:nShared] {
+		shared.Sels = append(shared.Sels, leaf(x[0], x[1]))
+	}
+	field := []string{"b", "bv"}[g.r.Intn(2)]
+	g.nDef++
+	def := fmt.Sprintf("F%d", g.nDef)
+	body := &SelSet{Sels: []*Sel{{Name: field, Alias: field, Dirs: []Dir{}, HasSub: true, Sub: shared}}, Frags: []*Frag{}}
+	g.defs[def], g.defOn[def] = body, "A"
+	place := func(root, alias string, extra [2]string) *Sel {
+		partner := &Sel{Name: field, Alias: field, Dirs: []Dir{}, HasSub: true, Sub: &SelSet{Sels: []*Sel{leaf(extra[0], extra[1])}, Frags: []*Frag{}}}
+		return &Sel{Name: root, Alias: alias, Dirs: []Dir{}, HasSub: true, Sub: &SelSet{Sels: []*Sel{}, Frags: []*Frag{
+			{On: "A", Dirs: []Dir{}, def: def, Sub: body},
+			{On: "A", Dirs: []Dir{}, Sub: &SelSet{Sels: []*Sel{partner}, Frags: []*Frag{}}}}}}
+	}
+	roots := [][2]string{{"a1", "a1"}, {"as", "as"}, {"a1", "again"}}
+	g.r.Shuffle(len(roots), func(i, j int) { roots[i], roots[j] = roots[j], roots[i] })
+	return &SelSet{Sels: []*Sel{place(roots[0][0], roots[0][1], scal[nShared]), place(roots[1][0], roots[1][1], scal[nShared+1])}, Frags: []*Frag{}}
 }
 
 // selset generates a selection set for a value of (object or union) type t.
@@ -203,7 +237,22 @@ func (g *gen) selset(t string, depth int) *SelSet {
 			ss.Sels = append(ss.Sels, s)
 		default:
 			if t != "Query" && t != "MRoot" {
-				ss.Frags = append(ss.Frags, g.frag(t, depth))
+				f := g.frag(t, depth)
+				ss.Frags = append(ss.Frags, f)
+				// a later fragment selecting, under the same response key, an object field the first fragment selects
+				// too, with another sub-selection: the two are merged wherever the first one is spread
+				if depth > 0 && g.r.Intn(2) == 0 {
+					for _, fs := range f.Sub.Sels {
+						if fs.HasSub && fs.Name != "__typename" {
+							if ft, ok := schema[t][fs.Name]; ok && !isScalar(ft.typ) {
+								partner := &Sel{Name: fs.Name, Alias: fs.Alias, RName: fs.RName, ArgText: fs.ArgText, Dirs: []Dir{}, HasSub: true,
+									Sub: g.selset(ft.typ, depth-1)}
+								ss.Frags = append(ss.Frags, &Frag{On: t, Dirs: []Dir{}, Sub: &SelSet{Sels: []*Sel{partner}, Frags: []*Frag{}}})
+								break
+							}
+						}
+					}
+				}
 			}
 		}
 	}
